@@ -59,7 +59,9 @@ def shock_profile(eos: EOS, vw, vp, Tp, rtol=1e-10, dense=False):
         kind = "acoustic"
     else:
         xi_sh, v_sh, T_sh = float(sol.t[-1]), float(sol.y[0, -1]), float(sol.y[1, -1])
-        kind = "incomplete"
+        # a weak compression wave decays towards the acoustic limit xi -> c_s, v -> 0 where the ODE is singular and the
+        # integrator stalls; if the flow has already decayed by six orders of magnitude this IS the acoustic end
+        kind = "acoustic" if (sol.status == -1 and 0 <= v_sh < 1e-6 * v0) else "incomplete"
     return dict(xi_sh=xi_sh, v_sh=v_sh, T_sh=T_sh, kind=kind, sol=sol)
 
 
@@ -96,6 +98,8 @@ def kappa(eos: EOS, vw, vp, vm, Tp, Tm, Tn, alN, rtol=1e-10):
     wn = eos.w("s", Tn)
     tot = 0.0
     parts = {}
+    # absolute tolerance of the running integral: 1e-14 of its natural scale (unit covariant)
+    iatol = 1e-14 * vw**3 * wn
     # compression wave
     v0 = lorentz_mu(vw, vp)
     if v0 > 1e-14:
@@ -115,7 +119,7 @@ def kappa(eos: EOS, vw, vp, vm, Tp, Tm, Tn, alN, rtol=1e-10):
 
         ev_small.terminal = True
         if lorentz_mu(vw, v0) * vw < eos.csq("s", Tp):
-            sol = solve_ivp(f, [vw, 1 - 1e-12], [v0, Tp, 0.0], events=[ev_shock, ev_small], rtol=rtol, atol=[0, 0, 1e-30], method="DOP853")
+            sol = solve_ivp(f, [vw, 1 - 1e-12], [v0, Tp, 0.0], events=[ev_shock, ev_small], rtol=rtol, atol=[0, 0, iatol], method="DOP853")
             parts["shock"] = float(sol.y[2, -1])
             tot += parts["shock"]
     # rarefaction wave behind the wall: from xi = vw down to xi = cs_b where v -> 0
@@ -132,7 +136,7 @@ def kappa(eos: EOS, vw, vp, vm, Tp, Tm, Tn, alN, rtol=1e-10):
                 return y[0] - 1e-9 * vb
 
             ev_small_b.terminal = True
-            sol = solve_ivp(fb, [vw, 1e-6], [vb, Tm, 0.0], events=[ev_small_b], rtol=rtol, atol=[0, 0, 1e-30], method="DOP853")
+            sol = solve_ivp(fb, [vw, 1e-6], [vb, Tm, 0.0], events=[ev_small_b], rtol=rtol, atol=[0, 0, iatol], method="DOP853")
             parts["rarefaction"] = -float(sol.y[2, -1])  # integrating towards smaller xi
         else:
             # the xi-form is singular at the start; use the fluid velocity as the independent variable there
@@ -142,7 +146,7 @@ def kappa(eos: EOS, vw, vp, vm, Tp, Tm, Tn, alN, rtol=1e-10):
                 dxi = xi * gamma2(v) * (1 - v * xi) * (mu * mu / eos.csq("b", T) - 1) / (2 * v)
                 return [dxi, T * gamma2(v) * mu, xi * xi * v * v * gamma2(v) * eos.w("b", T) * dxi]
 
-            sol = solve_ivp(fv, [vb, 1e-9 * vb], [vw, Tm, 0.0], rtol=rtol, atol=[0, 0, 1e-30], method="DOP853")
+            sol = solve_ivp(fv, [vb, 1e-9 * vb], [vw, Tm, 0.0], rtol=rtol, atol=[0, 0, iatol], method="DOP853")
             parts["rarefaction"] = -float(sol.y[2, -1])  # xi decreases along the integration
         tot += parts["rarefaction"]
     return 4 * tot / (vw**3 * alN * wn), parts
